@@ -407,7 +407,19 @@ def gen_int(G):
         C = Case('umulExtended_L%d' % L, [(c, L), (c, L)], [c, c], bounds='all values')
         C.raw('v', L, '%s m, l; glm::umulExtended(%s, %s, m, l); stv($0, m); stv($1, l);' % (VTu, G.V('a', 'glm::uint'), G.V('b', 'glm::uint')), 'glm::uint m, l; glm::umulExtended(a[#], b[#], m, l); $0[#] = m; $1[#] = l;')
         o.append(C)
+        # output parameters that alias an input (in-place use): the scalar overloads read both operands before they write; the vector overloads must do the same
+        C = Case('umulExtended_alias_L%d' % L, [(c, L), (c, L)], [c, c], bounds='all values; lsb aliases x / msb aliases y')
+        C.raw('lsb=x', L, '%s x = %s, y = %s, m; glm::umulExtended(x, y, m, x); stv($0, m); stv($1, x);' % (VTu, G.V('a', 'glm::uint'), G.V('b', 'glm::uint')), 'glm::uint x = a[#], y = b[#], m; glm::umulExtended(x, y, m, x); $0[#] = m; $1[#] = x;')
+        C.raw('msb=y', L, '%s x = %s, y = %s, l; glm::umulExtended(x, y, y, l); stv($0, y); stv($1, l);' % (VTu, G.V('a', 'glm::uint'), G.V('b', 'glm::uint')), 'glm::uint x = a[#], y = b[#], l; glm::umulExtended(x, y, y, l); $0[#] = y; $1[#] = l;')
+        o.append(C)
+        for f in ('uaddCarry', 'usubBorrow'):
+            C = Case('%s_alias_L%d' % (f, L), [(c, L), (c, L)], [c, c], bounds='all values; carry aliases x')
+            C.raw('carry=x', L, '%s x = %s, y = %s; %s r = glm::%s(x, y, x); stv($0, r); stv($1, x);' % (VTu, G.V('a', 'glm::uint'), G.V('b', 'glm::uint'), VTu, f), 'glm::uint x = a[#], y = b[#]; glm::uint r = glm::%s(x, y, x); $0[#] = r; $1[#] = x;' % f)
+            o.append(C)
     if t == 'i32':
+        C = Case('imulExtended_alias_L%d' % L, [(c, L), (c, L)], [c, c], bounds='all values; lsb aliases x')
+        C.raw('lsb=x', L, '%s x = %s, y = %s, m; glm::imulExtended(x, y, m, x); stv($0, m); stv($1, x);' % (VTi, G.V('a', 'int'), G.V('b', 'int')), 'int x = a[#], y = b[#], m; glm::imulExtended(x, y, m, x); $0[#] = m; $1[#] = x;')
+        o.append(C)
         C = Case('imulExtended_L%d' % L, [(c, L), (c, L)], [c, c], bounds='all values')
         C.raw('v', L, '%s m, l; glm::imulExtended(%s, %s, m, l); stv($0, m); stv($1, l);' % (VTi, G.V('a', 'int'), G.V('b', 'int')), 'int m, l; glm::imulExtended(a[#], b[#], m, l); $0[#] = m; $1[#] = l;')
         o.append(C)
